@@ -51,7 +51,7 @@ ASSUMPTIONS = ['instants and configured durations are multiples of 2^-10 s below
 
 TPS = 1 << 20
 GRID = 1 << 10
-ACTIONS = ['open', 'data', 'park', 'cancel', 'finish', 'reset', 'lose']
+ACTIONS = ['open', 'data', 'recv', 'park', 'cancel', 'finish', 'reset', 'lose']
 
 logging.getLogger('grpclib').setLevel(logging.CRITICAL)
 logging.getLogger('asyncio').setLevel(logging.CRITICAL)
@@ -266,6 +266,8 @@ class Run:
                             await s.send_message(b'x')
                         elif cmd == 'park':
                             await s.recv_message()
+                        elif cmd == 'recv1':
+                            rec['got'] = await s.recv_message()
                         elif cmd == 'cancel':
                             await s.cancel()
                             rec['state'] = 'done'
@@ -301,6 +303,8 @@ class Run:
                         await stream.send_message(b'x')
                     elif cmd == 'park':
                         await stream.recv_message()
+                    elif cmd == 'recv1':
+                        rec['got'] = await stream.recv_message()
                     elif cmd in ('quit', 'finish'):
                         rec['state'] = 'done'
                         return
@@ -370,6 +374,19 @@ class Run:
                         evs.append('H')
                     evs.append('D')
                 evs += self.sync_opens()
+            elif action == 'recv':
+                # the PEER sends a message and the application reads it: Connection.ack returns the
+                # flow-control credit (model event R) -- inbound traffic, nothing "sent" by this side
+                size = [1, 5, 300, 9000, 16000][idx % 5]
+                if role == 'client' and not call.get('got_headers'):
+                    self.peer.headers(call['sid'], P.RESP_HEADERS)
+                    call['got_headers'] = True
+                self.peer.data(call['sid'], P.grpc_frame(b'y' * size))
+                call['q'].put_nowait('recv1')
+                self.loop.run_quiet(0.0)
+                if 'recv1' in call['rec']['ops'][-1:] and call['rec'].get('got') == b'y' * size:
+                    evs.append('R')
+                evs += self.sync_opens()
             elif action == 'park':
                 call['q'].put_nowait('park')
                 self.loop.run_quiet(0.0)
@@ -385,7 +402,9 @@ class Run:
                 if role == 'client':
                     call['q'].put_nowait('end')
                     self.loop.run_quiet(0.0)
-                    self.peer.headers(call['sid'], P.RESP_HEADERS)
+                    if not call.get('got_headers'):
+                        self.peer.headers(call['sid'], P.RESP_HEADERS)
+                        call['got_headers'] = True
                     self.peer.headers(call['sid'], [('grpc-status', '0')], end_stream=True)
                     call['q'].put_nowait('quit')
                     self.loop.run_quiet(0.0)
@@ -672,7 +691,9 @@ def oracle(case, r):
     # ---- detection within keepalive_time + keepalive_timeout of the peer going silent
     sigma = max([t0] + [a + 1 for a, _ in acks])
     bound = sigma + time_ + timeout
-    if lost_at is None and end > bound:
+    scan_broken = any(sig['kind'] in ('ping_missing', 'ping_not_allowed', 'ping_off_grid')
+                      for _, sig in out)
+    if lost_at is None and end > bound and not scan_broken:
         window = [q for q in fired if sigma <= q <= sigma + time_]
         if all(fired[q] for q in window) and (closed_at is None or closed_at > bound):
             out.append(('peer silent from %d while pings are allowed, yet not closed by %d '
@@ -827,7 +848,7 @@ def gen_case(rng, kind=None):
         pool = live + [timeout, timeout + GRID, None, time_ + GRID]
         delays = [rng.choice(pool) for _ in range(rng.randint(2, 5))]
     traffic = []
-    pattern = rng.choice(['idle', 'idle', 'one_call', 'streaming', 'churn', 'churn'])
+    pattern = rng.choice(['idle', 'idle', 'one_call', 'streaming', 'download', 'download', 'duplex', 'churn', 'churn'])
     span = horizon - t0
     if pattern == 'one_call':
         traffic.append([t0 + rng.randint(0, 3) * GRID, 'open', 0])
@@ -840,14 +861,26 @@ def gen_case(rng, kind=None):
         while t < horizon and len(traffic) < 40:
             traffic.append([t, 'data', 0])
             t += step
+    elif pattern in ('download', 'duplex'):
+        # receive-heavy: the peer streams messages which the application reads (credit goes back to the
+        # peer); 'duplex' also sends now and then, after a long receive-only period
+        traffic.append([t0 + GRID, 'open', 0])
+        step = max(GRID, frac(time_, rng.choice([1, 1, 3, 5]), rng.choice([2, 4, 8])))
+        t = t0 + GRID + step
+        k = 0
+        while t < horizon and len(traffic) < 60:
+            k += 1
+            send = pattern == 'duplex' and k % rng.choice([7, 11, 16]) == 0
+            traffic.append([t, 'data' if send else 'recv', rng.randint(0, 4)])
+            t += step
     elif pattern == 'churn':
         for _ in range(rng.randint(2, 14)):
             traffic.append([t0 + rng.randint(0, max(1, span // GRID)) * GRID,
-                            rng.choice(['open', 'open', 'data', 'data', 'data', 'park', 'cancel', 'finish',
-                                        'reset']), rng.randint(0, 3)])
+                            rng.choice(['open', 'open', 'data', 'data', 'recv', 'recv', 'recv', 'park', 'cancel',
+                                        'finish', 'reset']), rng.randint(0, 4)])
         # make coincidences with the timer grid frequent
         for _ in range(rng.randint(0, 3)):
-            traffic.append([t0 + rng.randint(1, periods) * time_, rng.choice(['open', 'data', 'reset']), 0])
+            traffic.append([t0 + rng.randint(1, periods) * time_, rng.choice(['open', 'data', 'recv', 'reset']), 0])
     if rng.random() < 0.05:
         traffic.append([t0 + rng.randint(1, max(1, span // GRID)) * GRID, 'lose', 0])
     traffic.sort(key=lambda x: x[0])
@@ -1008,7 +1041,8 @@ def run(ctx):
                 'time or 2^-10 s; permit flag; max_pings 0..5; min interval from 2^-10 s to 3*time and the default '
                 '300 s; int and float spellings; 4% keepalive off) x peer (acks after delay < timeout, = timeout '
                 'before/after the timer, late, stops at T, never, acks older pings, mixed) x traffic (idle, one '
-                'call, streaming data between pings, calls opening/closing/reset, traffic on timer instants, '
+                'call, streaming data between pings, receive-heavy downloads and duplex calls where the peer sends DATA '
+                'that the application reads, calls opening/closing/reset, traffic on timer instants, '
                 'connection loss) x start instant; finite horizon of 3..12 periods; every step compared with the '
                 'model (items P/S/X with instants + counter, open streams, both timers, last ping, closed); '
                 'Configuration validators on a value table and the role defaults; distinct = (role, timeout vs '
